@@ -332,6 +332,48 @@ def mixed_precision_jac(ctx: Ctx):
             return
 
 
+def jac_extreme_cotangents(ctx: Ctx):
+    """Jac row by row with cotangents at the ends of the range: a row whose cotangent is ±inf on ONE output must stay out of
+    the inputs that output does not reach and out of the other rows (exact zeros there, as torch.autograd gives), and rows of
+    subnormal cotangents (1e-310) are ordinary small numbers.  More rows than output scalars."""
+    rng = ctx.rng
+    na, nb = rng.choice([1, 2]), rng.choice([1, 2, 3])
+    a = torch.tensor([float(rng.randint(1, 3)) for _ in range(na)], dtype=torch.float64, requires_grad=True)
+    b = torch.tensor([float(rng.randint(1, 3)) for _ in range(nb)], dtype=torch.float64, requires_grad=True)
+    ca = [float(rng.randint(1, 4)) for _ in range(na)]
+    cb = [float(rng.randint(-4, 4) or 2) for _ in range(nb)]
+    o1 = (a * torch.tensor(ca, dtype=torch.float64)).sum().reshape(1)       # reaches a only
+    o2 = (b * torch.tensor(cb, dtype=torch.float64)).sum().reshape(1)       # reaches b only
+    m = rng.choice([3, 5, 6])
+    kind = rng.choice(["inf", "tiny"])
+    big = float("inf") if kind == "inf" else 1e-310
+    c1 = [float(rng.randint(-3, 3)) for _ in range(m)]
+    c2 = [float(rng.randint(-3, 3)) for _ in range(m)]
+    r0 = rng.randrange(m)
+    c1[r0] = big * rng.choice([-1.0, 1.0])
+    if kind == "tiny":
+        c1 = [v * 1e-310 if abs(v) >= 1 else v for v in c1]
+        c2 = [v * 1e-310 for v in c2]
+    chunk = rng.choice([None, 1, 2, m])
+    cot = {o1: torch.tensor(c1, dtype=torch.float64).reshape(m, 1), o2: torch.tensor(c2, dtype=torch.float64).reshape(m, 1)}
+    real = run_real(lambda: Jac(outputs=[o1, o2], inputs=[a, b], chunk_size=chunk, retain_graph=True)(Jacobians(cot)))
+    rp = {"transform": "Jac", "scenario": f"{kind} cotangents", "rows": m, "chunk": chunk, "c1": [str(v) for v in c1], "c2": [str(v) for v in c2],
+          "d_o1/d_a": ca, "d_o2/d_b": cb}
+    ctx.case(("jac-extreme", kind, m, chunk, str(c1), str(c2)), nontrivial=True)
+    ctx.count("transform", f"Jac({kind} cotangents)")
+    if real[0] != "ok":
+        ctx.violation(f"Jac with {kind} cotangents raised {real[1]}", rp)
+        return
+    ea = torch.tensor([[c1[r] * ca[j] for j in range(na)] for r in range(m)], dtype=torch.float64)
+    eb = torch.tensor([[c2[r] * cb[j] for j in range(nb)] for r in range(m)], dtype=torch.float64)
+    for name, got, exp in (("a", real[1][a], ea), ("b", real[1][b], eb)):
+        same = torch.equal(torch.nan_to_num(got, nan=7e77), torch.nan_to_num(exp, nan=7e77))
+        if not same:
+            ctx.violation(f"Jac with {kind} cotangents (chunk {chunk}): Jacobian of input {name} is {got.tolist()}, row-by-row vector-Jacobian "
+                          f"products give {exp.tolist()}", rp)
+            return
+
+
 def main(ctx: Ctx):
     ctx.lean_gate()
     n = 250 if ctx.tier == "quick" else 25000
@@ -341,6 +383,7 @@ def main(ctx: Ctx):
             chain(ctx, no_casts(ctx.rng, random_mtl))
         if i % 5 == 0:
             mixed_precision_jac(ctx)
+            jac_extreme_cotangents(ctx)
     return ctx.finish(
         rule="Init, Diagonalize, Select, Grad, Jac, Aggregate, Stack of torchjd.autojac._transform driven directly on "
              "random P-int programs with random key sets (several keys, equal-sized keys, 0-d..4-d, unreachable "
